@@ -7,8 +7,10 @@ use serde_json::Value;
 use crate::{
     runner::{finish_check, replay_plan, run_batch, threads, BatchCfg, BatchOut, CheckOut, Cx, Scenario, Tier},
     scen::offer::{Mode as OfferMode, Offer},
+    scen::docs::{Docs, Mode as DocsMode},
     scen::forge::Forge,
     scen::pair::{Mode as PairMode, Pair},
+    scen::query::QueryScen,
 };
 
 fn batch<S: Scenario>(s: &S, tier: Tier, seed: u64, quick_runs: u64, thorough_runs: u64, scale: f64) -> BatchOut {
@@ -33,6 +35,15 @@ pub fn run_property(prop: &str, tier: Tier, seed: u64, scale: f64) -> i32 {
         "C02" => vec![batch(&Offer { mode: OfferMode::State }, tier, seed, 60_000, 1_500_000, scale)],
         "C01" => vec![batch(&Pair { mode: PairMode::Converge }, tier, seed, 40_000, 1_000_000, scale)],
         "C03" => vec![batch(&Forge, tier, seed, 40_000, 1_000_000, scale)],
+        "C05" => vec![batch(&QueryScen, tier, seed, 40_000, 1_000_000, scale)],
+        "C07" => vec![batch(&Docs { mode: DocsMode::Cap }, tier, seed, 40_000, 1_000_000, scale)],
+        "C15" => vec![batch(&Docs { mode: DocsMode::Policy }, tier, seed, 40_000, 1_000_000, scale)],
+        "C16" => vec![batch(&Docs { mode: DocsMode::Remove }, tier, seed, 30_000, 800_000, scale)],
+        "C17" => vec![
+            batch(&Docs { mode: DocsMode::Peers }, tier, seed, 40_000, 1_000_000, scale),
+            batch(&Docs { mode: DocsMode::PeersClockFault }, tier, seed, 10_000, 200_000, scale),
+        ],
+        "C18" => vec![batch(&Docs { mode: DocsMode::Migrate }, tier, seed, 30_000, 800_000, scale)],
         "C08" => vec![batch(&Pair { mode: PairMode::Differential }, tier, seed, 15_000, 400_000, scale)],
         "C13" => vec![batch(&Offer { mode: OfferMode::Heads }, tier, seed, 60_000, 1_500_000, scale)],
         _ => {
@@ -49,6 +60,13 @@ fn replay_dispatch(prop: &str, scenario: &str, plan: Value) -> Result<(Option<cr
         (_, "offer") => replay_plan(&Offer { mode: OfferMode::State }, plan),
         (_, "offer-heads") => replay_plan(&Offer { mode: OfferMode::Heads }, plan),
         (_, "forge") => replay_plan(&Forge, plan),
+        (_, "query") => replay_plan(&QueryScen, plan),
+        (_, "docs-cap") => replay_plan(&Docs { mode: DocsMode::Cap }, plan),
+        (_, "docs-policy") => replay_plan(&Docs { mode: DocsMode::Policy }, plan),
+        (_, "docs-remove") => replay_plan(&Docs { mode: DocsMode::Remove }, plan),
+        (_, "docs-peers") => replay_plan(&Docs { mode: DocsMode::Peers }, plan),
+        (_, "docs-peers-clockfault") => replay_plan(&Docs { mode: DocsMode::PeersClockFault }, plan),
+        (_, "docs-migrate") => replay_plan(&Docs { mode: DocsMode::Migrate }, plan),
         (_, "pair") => replay_plan(&Pair { mode: PairMode::Converge }, plan),
         (_, "pair-diff") => replay_plan(&Pair { mode: PairMode::Differential }, plan),
         _ => Err(format!("unknown scenario {scenario} for {prop}")),
@@ -144,6 +162,12 @@ pub fn determinism(prop: Option<&str>, seeds: u64) -> i32 {
     if all || p == "C02" { twice(&Offer { mode: OfferMode::State }, seeds, &mut bad); }
     if all || p == "C13" { twice(&Offer { mode: OfferMode::Heads }, seeds, &mut bad); }
     if all || p == "C03" { twice(&Forge, seeds, &mut bad); }
+    if all || p == "C05" { twice(&QueryScen, seeds, &mut bad); }
+    if all || p == "C07" { twice(&Docs { mode: DocsMode::Cap }, seeds, &mut bad); }
+    if all || p == "C15" { twice(&Docs { mode: DocsMode::Policy }, seeds, &mut bad); }
+    if all || p == "C16" { twice(&Docs { mode: DocsMode::Remove }, seeds, &mut bad); }
+    if all || p == "C17" { twice(&Docs { mode: DocsMode::Peers }, seeds, &mut bad); twice(&Docs { mode: DocsMode::PeersClockFault }, seeds, &mut bad); }
+    if all || p == "C18" { twice(&Docs { mode: DocsMode::Migrate }, seeds, &mut bad); }
     if all || p == "C01" { twice(&Pair { mode: PairMode::Converge }, seeds, &mut bad); }
     if all || p == "C08" { twice(&Pair { mode: PairMode::Differential }, seeds, &mut bad); }
     if bad.is_empty() { 0 } else { for b in bad { eprintln!("NONDETERMINISM: {b}"); } 2 }
